@@ -14,6 +14,8 @@ type Generator struct {
 	ip       uintptr
 	upvalues []*Upvalue
 	stack    []value.Value
+	// number of slots of `stack` that are taken by self, parameters and locals
+	localCount int
 }
 
 // Create a new generator
@@ -28,6 +30,8 @@ func newGenerator(
 		upvalues: upvalues,
 		stack:    stack,
 		ip:       ip,
+		// a generator is created right after the slots of its locals have been registered (or before it has run at all)
+		localCount: len(stack),
 	}
 }
 
